@@ -2,7 +2,10 @@
   Driver ops for the stream codec.
     stream dec <layout> <user> <payloadhex>
     stream enc <user> <samples>
-  layout : `dtype:vdim:mlen,…` (index = channel id) or `-`
+    stream rt <layout> <user> <samples>    device-side encode → frame_decode → client decode (C15)
+  layout : `dtype:vdim:mlen[:x],…` (index = channel id) or `-`; the optional fourth field tells the harness
+           which `en` / critical-type-bit / device flags to give the real device object — the decoder never
+           reads them, so the model ignores it
   user   : `ty/dtype/items;…` with items `n.code+n.code` (code letters as in struct, `?` = bool) or `-`
   samples: `chan,dtype,vdim,mlen,[v;v],[m;m]|…` ; values `i:<int>` `f:<hex8>` `d:<hex16>`
            `x:<raw>:<frac>` `t:<hex>` `b:<hex>` `o:<0|1>`
@@ -41,32 +44,8 @@ def layoutArg (s : String) : Option (List Chan) :=
   (s.splitOn ",").mapM fun c =>
     match c.splitOn ":" with
     | [a, b, d] => do pure ⟨← a.toNat?, ← b.toNat?, ← d.toNat?⟩
+    | [a, b, d, x] => do let _ ← x.toNat?; pure ⟨← a.toNat?, ← b.toNat?, ← d.toNat?⟩
     | _ => none
-
-/-- strict UTF-8 validity (Unicode table 3-7), as CPython's decoder -/
-def utf8Valid : List Nat → Bool
-  | [] => true
-  | a :: r =>
-    if a < 0x80 then utf8Valid r
-    else if 0xC2 ≤ a ∧ a ≤ 0xDF then
-      match r with
-      | b :: r' => (0x80 ≤ b ∧ b ≤ 0xBF) && utf8Valid r'
-      | _ => false
-    else if 0xE0 ≤ a ∧ a ≤ 0xEF then
-      match r with
-      | b :: c :: r' =>
-        let lo := if a = 0xE0 then 0xA0 else 0x80
-        let hi := if a = 0xED then 0x9F else 0xBF
-        (lo ≤ b ∧ b ≤ hi) && (0x80 ≤ c ∧ c ≤ 0xBF) && utf8Valid r'
-      | _ => false
-    else if 0xF0 ≤ a ∧ a ≤ 0xF4 then
-      match r with
-      | b :: c :: d :: r' =>
-        let lo := if a = 0xF0 then 0x90 else 0x80
-        let hi := if a = 0xF4 then 0x8F else 0xBF
-        (lo ≤ b ∧ b ≤ hi) && (0x80 ≤ c ∧ c ≤ 0xBF) && (0x80 ≤ d ∧ d ≤ 0xBF) && utf8Valid r'
-      | _ => false
-    else false
 
 def hexN (digits : Nat) (n : Nat) : String :=
   String.ofList ((List.range digits).reverse.map fun i => hexDigit ((n / 16 ^ i) % 16))
@@ -76,7 +55,7 @@ def svalStr : SVal → String
   | .f32 w => "f:" ++ hexN 8 w.toNat
   | .f64 w => "d:" ++ hexN 16 w.toNat
   | .fixed raw frac => s!"x:{raw}:{frac}"
-  | .text bs => if utf8Valid (bs.map (·.toNat)) then "t:" ++ bs.hex else s!"t~{bs.length}"
+  | .text bs => if Utf8.valid bs then "t:" ++ bs.hex else s!"t~{bs.length}"
   | .bytes bs => "b:" ++ bs.hex
   | .bool b => "o:" ++ boolStr b
 
@@ -131,6 +110,21 @@ def streamOp : List String → Option String
     pure (showExcept (fun o => match o with
       | none => "none"
       | some b => b.hex) (frameStreamEncode u ss))
+  | ["rt", layout, user, samples] => do
+    let l ← layoutArg layout; let u ← userArg user; let ss ← samplesArg samples
+    pure (match frameStreamEncode u ss with
+      | .error e => "err " ++ e.name
+      | .ok none => "ok none"
+      | .ok (some f) =>
+        "ok " ++ f.hex ++ " " ++
+          (match Serial.frameDecode f with
+            | .error e => "ferr " ++ e.name
+            | .ok fr =>
+              match frameStreamDecode l u fr with
+              | .error e => "derr " ++ e.name
+              | .ok none => "none"
+              | .ok (some (fl, ss')) =>
+                s!"{fl} " ++ (if ss'.isEmpty then "-" else "|".intercalate (ss'.map sampleStr))))
   | _ => none
 
 end Nxs.Driver
